@@ -98,6 +98,8 @@ def _long_corpus():
 
 def _obs(chunks, cfg):
     reqs, kind, exc, text = gparse.parse_stream(chunks, cfg)
+    over = tuple(gparse.parse_stream.last_overreads)
+    _obs.last_over = over
     return (tuple(r[:8] for r in reqs), kind), (exc, text)
 
 
@@ -133,6 +135,11 @@ def _check_one(data, cfgname, cuts):
     ref, _ = _obs(_ref_chunks(data), cfg)
     got, (exc, text) = _obs(gparse.cut(data, cuts), cfg)
     d = _diff(ref, got)
+    if d is None and _obs.last_over:
+        i, extra = _obs.last_over[0]
+        return violation("over-read:request-complete-but-parser-reads-on", "stream %r cfg=%s cuts=%s: request %d was complete, yet the parser pulled %d more read(s) before "
+                         "handing out its body - on a live socket it would block" % (data[:60], cfgname, list(cuts), i, extra),
+                         {"data": data.decode("latin-1"), "cfg": cfgname, "cuts": list(cuts)})
     if d is None:
         return None
     fp = "segdep:%s:%s" % (d, exc if got[1] == "reject" else got[1])
@@ -178,7 +185,7 @@ def _task(t):
         outcomes.add(got[1] + str(len(got[0])))
         if _touches_delim(data, cuts):
             nontriv += 1
-        if got != ref:
+        if got != ref or _obs.last_over:
             v = _check_one(data, cfgname, cuts)
             if v and len(viols) < 50:
                 viols.append(v)
